@@ -1,6 +1,6 @@
 (* C03 property theorems: delta xDS leaves a client in the same state as state-of-the-world xDS. *)
 From V Require Import C03.Model C03.Proofs C03.ProofsHist C03.ProofsMain C03.ProofsWds.
-From Coq Require Import List NArith Bool.
+From Coq Require Import List NArith Bool Lia.
 Import ListNotations.
 Open Scope N_scope.
 
@@ -117,17 +117,57 @@ Theorem C03_removed_sound_ondemand_partial :
 Proof. exact wds_removed_sound_partial. Qed.
 Print Assumptions C03_removed_sound_ondemand_partial.
 
+(* The H_delta premise of C03_delta_eq_spec cannot be dropped: a delta-aware answer that forgets one
+   removal leaves the client with a resource that does not exist, and the server still believes the
+   client holds it.  The real BuildDeltaClusters gives such answers when a service port with more than
+   one cluster (plain + subset) is removed: finding C03-delta-cds-port-removal-keeps-sibling-cluster. *)
+Theorem C03_delta_eq_spec_needs_hdelta_refuted :
+  let s := hrun (mkSys empty_watched (fun _ => []) hd_g0) hd_ops in
+  lookup 7 (s_world s CDS) = None /\ lookup 7 (s_cl s CDS) = Some 1 /\ In 7 (record (s_srv s) CDS) /\
+  ~ (forall n, lookup n (c_upsert (c_remove (hd_g0 CDS) [6]) [(4, 2)]) = lookup n (hd_g1 CDS)).
+Proof. exact hdelta_needed. Qed.
+Print Assumptions C03_delta_eq_spec_needs_hdelta_refuted.
+
 (* ------------------------------------------------------------------ hypotheses are satisfiable *)
 
 Definition ex_world (v : N) : world := fun t => match t with CDS => [(1, v); (2, 1)] | EDS => [(1, 1)] | _ => [] end.
+Definition ex_world2 : world := fun t => match t with CDS => [(1, 3)] | EDS => [(1, 1)] | _ => [] end.
+Definition ex_ops : list hop :=
+  [HReq CDS 0 [] [] [(5, 1)];
+   HWorld ex_world2 (fun t => match t with CDS => MDelta [(1, 3)] [2] | _ => MFull end) [CDS; EDS];
+   HReq EDS 0 [1; 4] [] []].
+Definition ex_cl0 : xds_type -> list res := fun t => match t with CDS => [(5, 1)] | _ => [] end.
 
-(* connect, world change answered delta-aware for CDS (H_delta: update 1, remove 2), subscribe EDS *)
+Lemma lookup_cases n : n = 1 \/ n = 2 \/ n = 5 \/ (n <> 1 /\ n <> 2 /\ n <> 5).
+Proof. lia. Qed.
+
+(* the hypotheses of the history theorems are satisfiable: a reconnecting client that retained a stale
+   cluster, a world change answered delta-aware (H_delta instance), a later EDS subscription *)
+Example C03_hypotheses_satisfiable : wf_world (ex_world 1) /\ all_conformant (start ex_cl0 (ex_world 1)) ex_ops.
+Proof.
+  split.
+  - unfold wf_world. intros t. destruct t; cbn; intuition discriminate.
+  - cbn [all_conformant ex_ops]. split; [|split; [|split; [|exact I]]].
+    + cbn [conformant start s_srv s_cl ex_cl0]. split; [reflexivity|split; [reflexivity|split]].
+      * intros H. exfalso. apply H. reflexivity.
+      * intros _ n Hn. cbn in Hn |- *.
+        destruct (N.eqb_spec n 5) as [E|Hne]; [subst n|exfalso; apply Hn; reflexivity].
+        repeat split; auto; discriminate.
+    + vm_compute hstep. cbn [conformant]. split; [unfold wf_world; intros t; destruct t; cbn; intuition discriminate|].
+      split; [repeat constructor; cbn; intuition discriminate|].
+      intros t w Hw Hm Hd. destruct t; cbn in Hw; try discriminate; injection Hw as <-.
+      * split; [left; reflexivity|]. cbn. intros n.
+        destruct (N.eqb_spec n 1) as [->|H1]; [reflexivity|].
+        destruct (N.eqb_spec n 2) as [->|H2]; [reflexivity|]. cbn.
+        destruct (N.eqb_spec 2 n); [congruence|]. cbn.
+        destruct (N.eqb_spec 1 n); [congruence|]. reflexivity.
+    + vm_compute hstep. cbn [conformant s_srv s_cl]. split; [reflexivity|split; [reflexivity|split]].
+      * intros H. exfalso. apply H. reflexivity.
+      * intros _ n Hn. exfalso. apply Hn. reflexivity.
+Qed.
+
 Example C03_history_example :
-  let ops := [HReq CDS 0 [] [] [(5, 1)];
-              HWorld (fun t => match t with CDS => [(1, 3)] | EDS => [(1, 1)] | _ => [] end)
-                     (fun t => match t with CDS => MDelta [(1, 3)] [2] | _ => MFull end) [CDS; EDS];
-              HReq EDS 0 [1; 4] [] []] in
-  let s := hrun (start (fun t => match t with CDS => [(5, 1)] | _ => [] end) (ex_world 1)) ops in
+  let s := hrun (start ex_cl0 (ex_world 1)) ex_ops in
   s_cl s CDS = [(1, 3)] /\ s_cl s EDS = [(1, 1)] /\ record (s_srv s) CDS = [1] /\ record (s_srv s) EDS = [1; 4].
 Proof. vm_compute. repeat split. Qed.
 
